@@ -435,6 +435,16 @@ func (g *c13Gen) members(n, depth int) []c13Member {
 				m.OutName = c13OutNames[g.rng.Intn(len(c13OutNames))]
 			}
 		}
+		if g.nearMiss && m.Ty.hasFile() && len(usedNames) > 0 && g.rng.Intn(4) == 0 {
+			// near miss: reuse a sibling's output file name (must be rejected by the compiler)
+			names := make([]string, 0, len(usedNames))
+			for n := range usedNames {
+				names = append(names, n)
+			}
+			sort.Strings(names)
+			m.Help = "help " + id
+			m.OutName = names[g.rng.Intn(len(names))]
+		}
 		if m.Ty.hasFile() {
 			nm := m.expectName()
 			if usedNames[nm] && !g.nearMiss {
